@@ -119,8 +119,9 @@ C06(e) ==
   /\ e.ev = "bexit" => IF e.bg THEN e.note = "" ELSE e.note \in {"", "deadline;cancellable;"}
   \* "SkipRead forces a rebuild whose result is still stored": judged for a Get that ran alone (a concurrent Get may
   \* legitimately be handed the lock owner's result, whatever that owner read).
-  /\ (e.ev = "ret" /\ e.p \in skipP /\ e.err = "" /\ cnt.calls = 1) =>
-        (At(built, e.p, "") = e.v /\ e.v \in At(stored, e.k, {}))
+  /\ (e.ev = "ret" /\ e.p \in skipP /\ cnt.calls = 1) =>
+        /\ cnt.benter >= 1           \* neither the cache nor the failure cache may answer instead of the builder
+        /\ e.err = "" => (At(built, e.p, "") = e.v /\ e.v \in At(stored, e.k, {}))
 
 (* C09 (Failover part): every backend access a Get (or its background     *)
 (* build) makes is for the key the caller passed, whatever the caller does  *)
